@@ -51,6 +51,9 @@ def helper_patches():
     return out
 
 
+SKIP = "\x00skip"
+
+
 class FakeReader:
     """stands in for FortranReader: yields the given logical lines (what the reader would
     deliver: stripped statements and `!`+docmark doc lines)"""
@@ -65,9 +68,17 @@ class FakeReader:
     def __next__(self):
         if self.pending:
             return self.pending.pop(0)
-        if not self.lines:
-            raise StopIteration
-        return self.lines.pop(0)
+        while True:
+            if not self.lines:
+                raise StopIteration
+            line = self.lines.pop(0)
+            # SKIP marks "no statement here" (a symbolic program may be shorter than its slot list)
+            if isinstance(line, choice.CV):
+                if choice.apply(lambda v: v == SKIP, line):
+                    continue
+            elif isinstance(line, str) and line == SKIP:
+                continue
+            return line
 
     def pass_back(self, line):
         self.pending.insert(0, line)
@@ -125,7 +136,7 @@ def parse_concrete(lines, **settings):
             pass
 
 
-def project(files, correlate=True, post=None, post_modules=(), file_order="sorted", sym_sets=(), **settings):
+def project(files, correlate=True, post=None, post_modules=(), file_order="sorted", sym_sets=(), more_patches=None, **settings):
     """Run the real Project (all files parsed by the real parser, reader stubbed) and correlate().
     files: {basename: [logical lines (str or CV)]}.  `post(project)` runs inside the same patched context
     (same fresh NameSelector, same patches; `post_modules` are patched in addition) and its result is returned."""
@@ -153,13 +164,15 @@ def project(files, correlate=True, post=None, post_modules=(), file_order="sorte
             from fv import permset
             extra[(m_, "set")] = permset.PermSet
             extra[(m_, "sorted")] = permset.sym_sorted
+        extra.update(more_patches or {})
         old_symsets = set(patch.SYM_SET_MODULES)
         patch.SYM_SET_MODULES.clear()
         patch.SYM_SET_MODULES.update(m_.__name__ for m_ in sym_sets)
         with patch.patched(sf, fu, fp, *post_modules, extra=extra):
             buf = io.StringIO()
             with contextlib.redirect_stdout(buf), contextlib.redirect_stderr(buf):
-                st = ProjectSettings(src_dir=[__import__("pathlib").Path(d)], dbg=False, preprocess=False, quiet=True, parallel=0, **settings)
+                settings.setdefault("dbg", False)
+                st = ProjectSettings(src_dir=[__import__("pathlib").Path(d)], preprocess=False, quiet=True, parallel=0, **settings)
                 p = fp.Project(st)
                 if correlate:
                     p.correlate()
@@ -197,7 +210,8 @@ def project_concrete(files, correlate=True, **settings):
                 f.write("! replay\n")
         buf = io.StringIO()
         with contextlib.redirect_stdout(buf), contextlib.redirect_stderr(buf):
-            st = ProjectSettings(src_dir=[__import__("pathlib").Path(d)], dbg=False, preprocess=False, quiet=True, parallel=0, **settings)
+            settings.setdefault("dbg", False)
+            st = ProjectSettings(src_dir=[__import__("pathlib").Path(d)], preprocess=False, quiet=True, parallel=0, **settings)
             p = fp.Project(st)
             if correlate:
                 p.correlate()
